@@ -1168,6 +1168,7 @@ BASES = [
     '=SUM(1,IF(A1>0,2,4),8)', '=((1+2))', '=IF(C1="ax","a,b","c;d")', '=IF(C3="b","it""s","n")', '=SEARCH("c","abcabc")',
     '=COUNTIFS(C1:C4,"a*",A1:A4,">1")', '=SUMIF(C1:C4,"a?",B1:B4)', '=IF(C1="ax",A1*2,"none")', '=IF(C3="b","q?","n")&"!"',
     '=CONCATENATE("a*","b")', "=SUM('T 2'!A1,'T 2'!A1:A2)", '=COUNT(1,2,4)', "=COUNT(A3*'T 2'!A1)+SUM('T 2'!A1:A2)", '="a  b"&" c"', '="p\nq"&"\tr "',
+    '=MID("abcdef",2,4e0)', '=LEFT("abcdef",2E0)',      # a whole number written with an exponent where a count is needed
 ]
 APPEND1 = [')', '(', '+', '-', '*', '/', '&', '%', ',', ';', '=', '<', '>', '<>', '<=', '>=', '1', '2.5', '"x"', '""', '"', 'A1', 'B2',
            'A1:B2', 'TRUE', 'SUM', 'IF', 'SUM(1)', '()', '(1)', '%%', '!', ':', '.', "'", '#', '$', 'x', 'e1']
